@@ -8,9 +8,12 @@
     * `MinOnOffTask.present_value_change`                 → `holdDelay` + the re-entrant call in `wp`
     * `MinOnOffTask.process_task` / `TaskManager`         → `step (.tick t)`
 
-  The model is a transcription of the code as it stands AFTER the repair
-  fixes/C17-minonoff-swapped.patch (a new *active* state is held for
-  `minimumOnTime`, a new *inactive* state for `minimumOffTime`).
+  The model is a transcription of the code as it stands AFTER the repairs
+    fixes/C17-minonoff-swapped.patch     (a new *active* state is held for
+        `minimumOnTime`, a new *inactive* state for `minimumOffTime`),
+    fixes/C17-slot-write-validate.patch  (the value is checked before the slot
+        is touched, so a refused write changes nothing),
+    fixes/C17-datetime-default.patch     (construction only; no model content).
 
   Representation
     * values `V` are abstract (any type with decidable equality – Python `==`);
@@ -35,6 +38,8 @@ namespace BacVerif.Commandable
 inductive CErr
   | writeAccessDenied   -- ExecutionError('property','writeAccessDenied')
   | invalidArrayIndex   -- ExecutionError('property','invalidArrayIndex')
+  | invalidDatatype     -- InvalidParameterDatatype: the value is not one of the datatype
+  | valueOutOfRange     -- ExecutionError('property','valueOutOfRange'): enumeration value not in the table
   | valueError          -- ValueError("unrecognized present value …") in MinOnOffTask
   | recursion           -- RecursionError (fuel exhausted) – proved unreachable
   | notModelled         -- a property other than presentValue / priorityArray (C15's domain)
@@ -43,6 +48,8 @@ deriving DecidableEq, Repr, Inhabited
 def CErr.name : CErr → String
   | .writeAccessDenied => "exec:property:writeAccessDenied"
   | .invalidArrayIndex => "exec:property:invalidArrayIndex"
+  | .invalidDatatype => "invalidDatatype"
+  | .valueOutOfRange => "exec:property:valueOutOfRange"
   | .valueError => "python:ValueError"
   | .recursion => "python:RecursionError"
   | .notModelled => "notModelled"
@@ -55,6 +62,9 @@ deriving DecidableEq, Repr, Inhabited
 /-- per-object configuration (fixed during a run) -/
 structure Cfg (V : Type) where
   default : V            -- relinquishDefault (ReadableProperty: not writable through WriteProperty)
+  check : V → Option CErr -- the value check made before a slot is touched (`none` = acceptable):
+                         -- `datatype.is_valid(value)` / `isinstance(value, datatype)` → invalidDatatype,
+                         -- Enumerated and `value not in _xlate_table` → valueOutOfRange
   minOnOff : Bool        -- the class carries the MinOnOff mix-in (generated table)
   inactive : V           -- BinaryPV 'inactive'
   active : V             -- BinaryPV 'active'
@@ -94,6 +104,11 @@ def holdDelay {V} [DecidableEq V] (cfg : Cfg V) (new : V) : Option Nat :=
   else if new = cfg.active then some cfg.minOn
   else none
 
+/-- `if value == (): … else: <check the value>` -/
+def checkValue {V} (cfg : Cfg V) : Option V → Option CErr
+  | none => none
+  | some v => cfg.check v
+
 /-- the first part of `_Commando.WriteProperty`: a presentValue write becomes a
     write of `priorityArray[priority]`, `priority is None` → 16 -/
 def redirect (prop : PropId) (arrayIndex priority : Option Int) : PropId × Option Int :=
@@ -123,6 +138,10 @@ def wp {V} [DecidableEq V] (cfg : Cfg V) :
       if i = 0 then (s, some .writeAccessDenied)
       else if i < 1 ∨ i > 16 then (s, some .invalidArrayIndex)
       else
+      -- "check the value before anything is changed" (a null needs no check)
+      match checkValue cfg value with
+      | some e => (s, some e)
+      | none =>
         -- the null or the choice is set, the other cleared
         let s1 : St V := { s with slots := setSlot s.slots i.toNat value }
         -- look for the highest priority value, compare with the current value
